@@ -247,3 +247,48 @@ package stats
 //@     invariant 0 <= idx() <= len(d.T) && unchanged()
 //@     invariant forall i int :: 0 <= i < idx() ==> d.T[i] <= 1
 //@     decreases len(d.T) - idx()
+
+// ---------------------------------------------------------------------------
+// Running mean and Welford variance, and the paired t-test built on them (C12)
+
+// meanTo(xs, k): the running mean after k values, as Mean computes it.
+//@ rec func meanTo(xs []float64, k int) float64 = k <= 0 ? 0.0 : meanTo(xs, k-1) + (xs[k-1] - meanTo(xs, k-1)) / float64(k)
+// m2To(xs, k): Welford's sum of squared deviations after k values.
+//@ rec func m2To(xs []float64, k int) float64 = k <= 0 ? 0.0 : m2To(xs, k-1) + (xs[k-1] - meanTo(xs, k-1)) * (xs[k-1] - meanTo(xs, k))
+
+//@ func Mean(xs []float64) (m float64)
+//@   props C12
+//@   ensures len(xs) == 0 ==> isNaN(m)
+//@   ensures len(xs) > 0 ==> bits(m, meanTo(xs, len(xs)))
+//@   loop 1:
+//@     invariant 0 <= idx() <= len(xs) && unchanged() && bits(m, meanTo(xs, idx()))
+//@     decreases len(xs) - idx()
+
+//@ func Variance(xs []float64) (v float64)
+//@   props C12
+//@   ensures len(xs) == 0 ==> isNaN(v)
+//@   ensures len(xs) == 1 ==> bits(v, 0.0)
+//@   ensures len(xs) > 1 ==> bits(v, m2To(xs, len(xs)) / float64(len(xs) - 1))
+//@   loop 1:
+//@     invariant 0 <= idx() <= len(xs) && unchanged() && bits(mean, meanTo(xs, idx())) && bits(M2, m2To(xs, idx()))
+//@     decreases len(xs) - idx()
+
+//@ func StdDev(xs []float64) (s float64)
+//@   props C12
+//@   ensures len(xs) > 1 ==> bits(s, math.Sqrt(m2To(xs, len(xs)) / float64(len(xs) - 1)))
+//@   ensures len(xs) == 1 ==> bits(s, math.Sqrt(0.0))
+
+// Paired test: the one-sample statistic of the element-wise differences.
+//@ func PairedTTest(x1, x2 []float64, mu0 float64, alt LocationHypothesis) (r *TTestResult, err error)
+//@   props C12
+//@   opt allocates
+//@   ensures len(x1) != len(x2) ==> r == nil && err == ErrMismatchedSamples
+//@   ensures len(x1) == len(x2) && len(x1) <= 1 ==> r == nil && err == ErrSampleSize
+//@   ensures err == nil ==> r != nil && len(x1) == len(x2) && len(x1) > 1 && r.N1 == len(x1) && r.N2 == len(x2) && r.AltHypothesis == alt && bits(r.DoF, float64(len(x1) - 1)) && bits(r.P, tailP(alt, r.T, r.DoF))
+//@   ensures err == nil ==> exists d []float64 witness diff :: len(d) == len(x1) && (forall i int :: 0 <= i < len(d) ==> bits(d[i], x1[i] - x2[i])) &&
+//@             bits(r.T, (meanTo(d, len(d)) - mu0) * math.Sqrt(float64(len(x1))) / math.Sqrt(m2To(d, len(d)) / float64(len(d) - 1)))
+//@   ensures err != nil && len(x1) == len(x2) && len(x1) > 1 ==> r == nil && err == ErrZeroVariance
+//@   loop 1:
+//@     invariant 0 <= idx() <= len(x1) && len(diff) == len(x1) && fresh(diff) && unchanged(diff) && dof == float64(len(x1) - 1)
+//@     invariant forall i int :: {diff[i]} 0 <= i < idx() ==> bits(diff[i], x1[i] - x2[i])
+//@     decreases len(x1) - idx()
